@@ -168,7 +168,7 @@ PLANS = {
         "quick": [ex("hpeg2", "peg", 2, 2, hist=1), ex("hmemo2", "memo", 2, 2, hist=2, modes=["E"], kinds=["slice"]),
                   ex("stat", "stat", 1, 3, kinds=["static", "staticc"], modes=["E"]),
                   rec("pegH", "peg", 1000, 8, 6, kinds=["str", "slice", "stream"]), rec("memoH", "memo", 500, 8, 6), rec("rcvH", "rcv", 500, 8, 6),
-                  rec("repH", "rep", 800, 8, 6), rec("recH", "rec", 500, 8, 8), rec("ctxH", "ctx", 400, 8, 6), rec("lblH", "lbl", 400, 8, 6),
+                  rec("repH", "rep", 800, 8, 6), rec("recH", "rec", 500, 8, 8), rec("ctxH", "ctx", 400, 8, 6), rec("lblH", "lbl", 400, 8, 6), rec("prattHi", "pratt", 400, 6, 7),
                   {"kind": "threads", "name": "threads", "n": 8, "rounds": 3}],
         "thorough": [ex("hpeg2", "peg", 2, 2, hist=2, modes=["E"], timeout=3000), ex("hpeg3", "peg", 3, 1, hist=2, modes=["E"], timeout=3000), ex("hmemo3", "memo", 3, 2, hist=2, modes=["E"], kinds=["slice"]),
                      ex("hrcv2", "rcv", 2, 2, hist=2, modes=["E"]),
